@@ -197,6 +197,14 @@ func c11Embeddings(m c11Model, seed int64, wantConsecutive bool) []c11Emb {
 	}
 	b := emb.RawID(r.Intn(5), p)
 	out = append(out, c11Emb{kind: "deep", name: "deep(" + b.String() + "+)", roots: c11Consecutive(b, m.NF), consecutive: true, rootLevel: al})
+	// an anchor in the middle of the hierarchy (model leaves are neither faces' children nor real leaves)
+	ml := 1 + r.Intn(28-m.L)
+	mid := c11RandomAnchor(r, ml)
+	mstep := 2 * c11Lsb(mid)
+	if uint64(mid)+uint64(m.NF-1)*mstep >= c11EndID {
+		mid = s2.CellID(uint64(mid) - uint64(m.NF-1)*mstep)
+	}
+	out = append(out, c11Emb{kind: "mid", name: "mid(" + mid.String() + "+)", roots: c11Consecutive(mid, m.NF), consecutive: true, rootLevel: ml})
 	if !wantConsecutive && m.NF > 1 {
 		// unrelated anchors, sorted
 		seen := map[s2.CellID]bool{}
@@ -357,8 +365,8 @@ func opCu1(raw json.RawMessage, o *Out) {
 		if got := norm.LeafCellsCovered(); got < 0 || uint64(got) != wl {
 			o.Fail("cu1/LeafCellsCovered/"+e.kind, "LeafCellsCovered=%d, model %d*%d: %s", got, c.Leaves, e.leafScale(m), desc)
 		}
-		// Denormalize
-		{
+		// Denormalize (the model computed levels for root level 0 and 30-L only)
+		if e.kind != "mid" {
 			minLevel, levels := c.Dmin, c.Dtop
 			if e.kind == "deep" {
 				minLevel, levels = c.Ddmin, c.Ddeep
@@ -482,6 +490,28 @@ func c11CheckFind(o *Out, key string, m c11Model, e c11Emb, us []s2.CellUnion, w
 	}
 }
 
+func c11DifferenceTerminates(o *Out, key string, x, y s2.CellUnion, desc string) bool {
+	ok := true
+	var rec func(id s2.CellID)
+	rec = func(id s2.CellID) {
+		if !ok || !y.IntersectsCellID(id) || y.ContainsCellID(id) {
+			return
+		}
+		if uint64(id)&1 != 0 {
+			o.Fail(key, "leaf %s: IntersectsCellID=true but ContainsCellID=false for union %s: %s", id.String(), c11Show(y), desc)
+			ok = false
+			return
+		}
+		for _, ch := range c11DescAt(id, emb.RawLevel(id)+1) {
+			rec(ch)
+		}
+	}
+	for _, id := range x {
+		rec(id)
+	}
+	return ok
+}
+
 func opCu2(raw json.RawMessage, o *Out) {
 	var c struct {
 		L, NF            int
@@ -516,8 +546,15 @@ func opCu2(raw json.RawMessage, o *Out) {
 		cmp("FromUnion-swapped", s2.CellUnionFromUnion(c11Clone(B), c11Clone(A)), c.Un)
 		cmp("FromIntersection", s2.CellUnionFromIntersection(c11Clone(A), c11Clone(B)), c.It)
 		cmp("FromIntersection-swapped", s2.CellUnionFromIntersection(c11Clone(B), c11Clone(A)), c.It)
-		cmp("FromDifference", s2.CellUnionFromDifference(c11Clone(A), c11Clone(B)), c.Dab)
-		cmp("FromDifference-swapped", s2.CellUnionFromDifference(c11Clone(B), c11Clone(A)), c.Dba)
+		// CellUnionFromDifference recurses into children while a cell intersects the other
+		// union without being contained in it; for a leaf cell the two notions coincide.
+		// Check that on the cells the recursion visits (a violation would also make the
+		// real recursion run forever, which no recover() can catch).
+		if c11DifferenceTerminates(o, "cu2/leaf-intersects-but-not-contained/"+e.kind, A, B, desc) &&
+			c11DifferenceTerminates(o, "cu2/leaf-intersects-but-not-contained/"+e.kind, B, A, desc) {
+			cmp("FromDifference", s2.CellUnionFromDifference(c11Clone(A), c11Clone(B)), c.Dab)
+			cmp("FromDifference-swapped", s2.CellUnionFromDifference(c11Clone(B), c11Clone(A)), c.Dba)
+		}
 		bools := func(name string, got, want bool) {
 			if got != want {
 				o.Fail("cu2/"+name+"/"+e.kind, "%s = %v, model %v: %s", name, got, want, desc)
